@@ -413,15 +413,18 @@ Proof.
   destruct (beq (m_name m) s_export_json); [now apply IH|].
   destruct (cut_first c_under (m_name m)) as [[a rest]|] eqn:Ecut; [|reflexivity].
   destruct (can_create sdir dirs (import_target sdir idb rest)) eqn:Ecc; [|reflexivity].
-  specialize (IH ef Hid). destruct (import_run sdir idb dirs r ef) as [w ok]. cbn [fst forallb] in *.
-  rewrite IH, andb_true_r.
-  assert (Hrest : contains s_dotdotslash rest = false).
-  { destruct (contains s_dotdotslash rest) eqn:E; [|reflexivity].
-    rewrite (contains_suffix _ _ _ _ _ Ecut E) in Ec. discriminate. }
-  destruct (import_target_shape sdir idb rest Hid Hrest) as (rel & Ht & Hpl).
-  rewrite Ht in *. unfold strictly_below. rewrite strip_prefix_app.
-  destruct rel as [|c rel]; [|exact Hpl].
-  unfold can_create in Ecc. rewrite app_nil_r, list_beq_refl in Ecc. discriminate.
+  assert (Htgt : strictly_below sdir (import_target sdir idb rest) = true).
+  { assert (Hrest : contains s_dotdotslash rest = false).
+    { destruct (contains s_dotdotslash rest) eqn:E; [|reflexivity].
+      rewrite (contains_suffix _ _ _ _ _ Ecut E) in Ec. discriminate. }
+    destruct (import_target_shape sdir idb rest Hid Hrest) as (rel & Ht & Hpl).
+    rewrite Ht in *. unfold strictly_below. rewrite strip_prefix_app.
+    destruct rel as [|c rel]; [|exact Hpl].
+    unfold can_create in Ecc. rewrite app_nil_r, list_beq_refl in Ecc. discriminate. }
+  destruct (m_valid m).
+  - specialize (IH ef Hid). destruct (import_run sdir idb dirs r ef) as [w ok]. cbn [fst forallb] in *.
+    now rewrite IH, Htgt.
+  - cbn [fst forallb]. now rewrite Htgt.
 Qed.
 
 (* ================================================================ restore: success *)
@@ -668,7 +671,7 @@ Proof.
   destruct (beq (m_name m) s_export_json); [apply IH|].
   destruct (cut_first c_under (m_name m)) as [[a rest]|]; [|split; reflexivity].
   destruct (can_create sdir dirs (import_target sdir idb rest)); [|split; reflexivity].
-  cbv zeta.
+  cbv zeta. destruct (m_valid m); [|split; reflexivity].
   match goal with |- context [import_writes sdir idb dirs ?fs' r ef] => destruct (IH fs' ef) as [I1 I2];
     destruct (import_writes sdir idb dirs fs' r ef) as [w ok] end.
   destruct (import_run sdir idb dirs r ef) as [w2 ok2]. cbn [fst snd map] in *. split; congruence.
@@ -715,7 +718,7 @@ Proof.
   destruct (beq (m_name m) s_export_json); [apply IH|].
   destruct (cut_first c_under (m_name m)) as [[a rest]|]; [|constructor].
   destruct (can_create sdir dirs (import_target sdir idb rest)); [|constructor].
-  cbv zeta.
+  cbv zeta. destruct (m_valid m); [|cbn [fst]; constructor; constructor].
   match goal with |- context [import_writes sdir idb dirs ?fs' r ef] => pose proof (IH fs' ef) as I;
     destruct (import_writes sdir idb dirs fs' r ef) as [w ok] end.
   cbn [fst] in *. constructor. exact I.
@@ -734,4 +737,205 @@ Proof.
     repeat split; auto; now apply N.eqb_eq.
   - intros H z Hin. destruct (selected users z) eqn:Hsel; [|reflexivity]. cbn [negb orb].
     destruct (H z Hin Hsel) as (H1 & H2 & H3 & H4). unfold check_one. rewrite H1, H2, H3, H4, !N.eqb_refl. reflexivity.
+Qed.
+
+(* ================================================================ import: nothing is committed unless every member verifies *)
+
+Lemma list_beq_eq : forall a b, list_beq a b = true -> a = b.
+Proof.
+  induction a as [|x a IH]; destruct b as [|y b]; cbn [list_beq]; intro H; try reflexivity; try discriminate.
+  apply andb_true_iff in H. destruct H as [H1 H2]. apply beq_eq32 in H1. apply IH in H2. now subst.
+Qed.
+
+(* one snapshot member that Open / Check reject, anywhere in the stream: the import fails *)
+Theorem invalid_member_fails : forall sdir idb dirs ms1 m ms2 fs ef,
+  m_kind m = MFile -> m_valid m = false ->
+  beq (m_name m) s_content_json = false -> beq (m_name m) s_export_json = false ->
+  snd (import_writes sdir idb dirs fs (ms1 ++ m :: ms2) ef) = false.
+Proof.
+  intros sdir idb dirs ms1 m ms2. induction ms1 as [|m1 r IH]; intros fs ef Hk Hv Hc He; cbn [app import_writes].
+  - rewrite Hk, Hc, He.
+    destruct (contains s_dotdotslash (m_name m)); [reflexivity|].
+    destruct (cut_first c_under (m_name m)) as [[a rest]|]; [|reflexivity].
+    destruct (can_create sdir dirs (import_target sdir idb rest)); [|reflexivity].
+    cbv zeta. rewrite Hv. reflexivity.
+  - destruct (m_kind m1); try reflexivity.
+    destruct (contains s_dotdotslash (m_name m1)); [reflexivity|].
+    destruct (beq (m_name m1) s_content_json); [now apply IH|].
+    destruct (beq (m_name m1) s_export_json); [now apply IH|].
+    destruct (cut_first c_under (m_name m1)) as [[a rest]|]; [|reflexivity].
+    destruct (can_create sdir dirs (import_target sdir idb rest)); [|reflexivity].
+    cbv zeta. destruct (m_valid m1); [|reflexivity].
+    match goal with |- context [import_writes sdir idb dirs ?fs' (r ++ m :: ms2) ef] =>
+      pose proof (IH fs' ef Hk Hv Hc He) as I; destruct (import_writes sdir idb dirs fs' (r ++ m :: ms2) ef) as [w ok] end.
+    exact I.
+Qed.
+
+Lemma path_lookup_filter_none : forall (g : list bytes * bytes -> bool) p l,
+  (forall q c, In (q, c) l -> list_beq q p = true -> g (q, c) = false) -> path_lookup p (filter g l) = None.
+Proof.
+  intros g p l. induction l as [|[q c] l IH]; intro H; cbn [filter path_lookup]; [reflexivity|].
+  destruct (g (q, c)) eqn:Eg.
+  - cbn [path_lookup]. destruct (list_beq q p) eqn:Eq.
+    + rewrite (H q c (or_introl eq_refl) Eq) in Eg. discriminate.
+    + apply IH. intros q0 c0 Hin. apply H. now right.
+  - apply IH. intros q0 c0 Hin. apply H. now right.
+Qed.
+
+(* a failed import (for whatever reason, at whatever member) leaves NO file <id>_*.zip in the snapshots directory: what
+   was written before the failure is removed again by the deferred Cancel *)
+Theorem failed_import_commits_nothing : forall sdir idb dirs fs ms n,
+  snd (import_final sdir idb dirs fs ms) = false ->
+  glob_id_zip idb n = true ->
+  path_lookup (sdir ++ [n]) (fst (import_final sdir idb dirs fs ms)) = None.
+Proof.
+  intros sdir idb dirs fs ms n Hf Hg. unfold import_final in *.
+  destruct (import_writes sdir idb dirs fs ms false) as [w ok]. destruct ok; [discriminate|]. cbn [fst].
+  apply path_lookup_filter_none. intros q c _ Hq. apply list_beq_eq in Hq. subst q. cbn [fst].
+  rewrite strip_prefix_app, Hg. reflexivity.
+Qed.
+
+(* a successful import: every snapshot member (file member other than the two json members) of the stream verified *)
+Theorem committed_import_all_valid : forall sdir idb dirs fs ms m,
+  snd (import_final sdir idb dirs fs ms) = true -> In m ms ->
+  m_kind m = MFile -> beq (m_name m) s_content_json = false -> beq (m_name m) s_export_json = false ->
+  m_valid m = true.
+Proof.
+  intros sdir idb dirs fs ms m Hok Hin Hk Hc He.
+  destruct (m_valid m) eqn:Hv; [reflexivity|].
+  apply in_split in Hin. destruct Hin as (ms1 & ms2 & ->).
+  unfold import_final in Hok.
+  pose proof (invalid_member_fails sdir idb dirs ms1 m ms2 fs false Hk Hv Hc He) as Hfail.
+  destruct (import_writes sdir idb dirs fs (ms1 ++ m :: ms2) false) as [w ok]. cbn [snd] in Hfail. subst ok.
+  cbn [snd] in Hok. discriminate.
+Qed.
+
+(* ================================================================ export -> import round trip *)
+
+Definition noslash (s : bytes) : bool := forallb (fun b => negb (b =? c_slash)) s.
+
+Lemma noslash_no_dds : forall s, noslash s = true -> contains s_dotdotslash s = false.
+Proof.
+  induction s as [|x r IH]; intro H; [reflexivity|].
+  cbn [noslash forallb] in H. apply andb_true_iff in H. destruct H as [Hx Hr].
+  cbn [contains]. rewrite (IH Hr), orb_false_r.
+  unfold s_dotdotslash. cbn [has_prefix].
+  destruct r as [|y [|z r]]; cbn [has_prefix]; rewrite ?andb_false_r; try reflexivity.
+  cbn [noslash forallb] in Hr. apply andb_true_iff in Hr. destruct Hr as [_ Hr].
+  apply andb_true_iff in Hr. destruct Hr as [Hz _]. unfold c_slash in Hz.
+  apply negb_true_iff in Hz. rewrite N.eqb_sym in Hz. rewrite Hz. cbn [andb]. now rewrite !andb_false_r.
+Qed.
+
+Lemma split_on_noslash : forall s, noslash s = true -> split_on c_slash s = [s].
+Proof.
+  induction s as [|x r IH]; intro H; [reflexivity|].
+  cbn [noslash forallb] in H. apply andb_true_iff in H. destruct H as [Hx Hr]. apply negb_true_iff in Hx.
+  cbn [split_on]. rewrite Hx, (IH Hr). reflexivity.
+Qed.
+
+Lemma noslash_app : forall a x b, noslash a = true -> negb (x =? c_slash) = true -> noslash b = true -> noslash (a ++ x :: b) = true.
+Proof. intros a x b Ha Hx Hb. unfold noslash in *. rewrite forallb_app. cbn [forallb]. now rewrite Ha, Hx, Hb. Qed.
+
+Lemma import_target_simple : forall sdir idb rest, noslash idb = true -> noslash rest = true ->
+  import_target sdir idb rest = sdir ++ [idb ++ c_under :: rest].
+Proof.
+  intros sdir idb rest Hi Hr. unfold import_target.
+  rewrite (split_on_noslash _ (noslash_app idb c_under rest Hi eq_refl Hr)). cbn [clean_comps].
+  pose proof (has_underscore_plain idb rest) as Hp. unfold plain_comp in Hp.
+  apply andb_true_iff in Hp. destruct Hp as [Hp Hp3]. apply andb_true_iff in Hp. destruct Hp as [Hp1 Hp2].
+  apply negb_true_iff in Hp1, Hp2, Hp3. rewrite Hp1, Hp2, Hp3. cbn [orb rev]. now rewrite rev_involutive.
+Qed.
+
+Lemma cut_first_app : forall a rest, forallb (fun b => negb (b =? c_under)) a = true ->
+  cut_first c_under (a ++ c_under :: rest) = Some (a, rest).
+Proof.
+  induction a as [|x a IH]; intros rest H; cbn [app cut_first].
+  - now rewrite N.eqb_refl.
+  - cbn [forallb] in H. apply andb_true_iff in H. destruct H as [Hx Ha]. apply negb_true_iff in Hx.
+    now rewrite Hx, (IH rest Ha).
+Qed.
+
+Lemma underscore_not_json : forall a rest,
+  beq (a ++ c_under :: rest) s_content_json = false /\ beq (a ++ c_under :: rest) s_export_json = false.
+Proof.
+  intros a rest.
+  assert (Hin : In c_under (a ++ c_under :: rest)) by (apply in_or_app; right; now left).
+  split.
+  - destruct (beq (a ++ c_under :: rest) s_content_json) eqn:E; [|reflexivity].
+    apply beq_eq32 in E. rewrite E in Hin. unfold s_content_json, c_under in Hin. cbn in Hin.
+    repeat (destruct Hin as [Hin|Hin]; [discriminate|]). contradiction.
+  - destruct (beq (a ++ c_under :: rest) s_export_json) eqn:E; [|reflexivity].
+    apply beq_eq32 in E. rewrite E in Hin. unfold s_export_json, c_under in Hin. cbn in Hin.
+    repeat (destruct Hin as [Hin|Hin]; [discriminate|]). contradiction.
+Qed.
+
+Lemma list_beq_snoc_false : forall (l : list bytes) c, list_beq (l ++ [c]) l = false.
+Proof.
+  induction l as [|x l IH]; intro c; cbn [app list_beq]; [reflexivity|]. now rewrite IH, andb_false_r.
+Qed.
+
+Lemma list_beq_neq : forall a b, a <> b -> list_beq a b = false.
+Proof. intros a b H. destruct (list_beq a b) eqn:E; [|reflexivity]. apply list_beq_eq in E. contradiction. Qed.
+
+Definition rt_target (sdir : list bytes) (idb : bytes) (rc : bytes * bytes) : list bytes * bytes :=
+  (sdir ++ [idb ++ c_under :: fst rc], snd rc).
+Definition rt_member (ida : bytes) (rc : bytes * bytes) : member :=
+  {| m_name := ida ++ c_under :: fst rc; m_kind := MFile; m_body := snd rc; m_valid := true |}.
+
+Lemma roundtrip_files : forall sdir ida idb dirs files fs tail ef,
+  forallb (fun b => negb (b =? c_under)) ida = true -> noslash ida = true -> noslash idb = true ->
+  Forall (fun rc => noslash (fst rc) = true) files ->
+  NoDup (map fst files) ->
+  Forall (fun rc => path_lookup (fst (rt_target sdir idb rc)) fs = None /\
+                    existsb (list_beq (fst (rt_target sdir idb rc))) dirs = false) files ->
+  import_writes sdir idb dirs fs (map (rt_member ida) files ++ tail) ef =
+  (map (rt_target sdir idb) files ++ fst (import_writes sdir idb dirs (rev (map (rt_target sdir idb) files) ++ fs) tail ef),
+   snd (import_writes sdir idb dirs (rev (map (rt_target sdir idb) files) ++ fs) tail ef)).
+Proof.
+  intros sdir ida idb dirs files. induction files as [|rc r IH]; intros fs tail ef Hu Ha Hb Hs Hnd Hfree.
+  - cbn [map app rev]. now destruct (import_writes sdir idb dirs fs tail ef).
+  - inversion Hs as [|? ? Hs1 Hs2]; subst. inversion Hnd as [|? ? Hn1 Hn2]; subst.
+    inversion Hfree as [|? ? [Hf1 Hf1'] Hf2]; subst.
+    cbn [map app import_writes rt_member m_kind m_name m_body m_valid].
+    rewrite (noslash_no_dds _ (noslash_app ida c_under (fst rc) Ha eq_refl Hs1)).
+    destruct (underscore_not_json ida (fst rc)) as [-> ->].
+    rewrite (cut_first_app ida (fst rc) Hu), (import_target_simple sdir idb (fst rc) Hb Hs1).
+    unfold can_create. rewrite list_beq_snoc_false. unfold rt_target in Hf1, Hf1'. cbn [fst] in Hf1, Hf1'.
+    rewrite Hf1', removelast_last, list_beq_refl. cbn [negb andb orb]. cbv zeta. rewrite Hf1.
+    replace (overlay [] (snd rc)) with (snd rc) by (unfold overlay; now rewrite skipn_nil, app_nil_r).
+    rewrite (IH ((sdir ++ [idb ++ c_under :: fst rc], snd rc) :: fs) tail ef Hu Ha Hb Hs2 Hn2).
+    + cbn [rev map]. unfold rt_target at 3. unfold rt_target at 5. cbn [fst snd].
+      rewrite <- !app_assoc. cbn [app]. reflexivity.
+    + clear IH. rewrite Forall_forall in *. intros rc2 Hin. destruct (Hf2 rc2 Hin) as [G1 G2]. split; [|exact G2].
+      cbn [path_lookup]. unfold rt_target. cbn [fst].
+      rewrite list_beq_neq; [exact G1|].
+      intro Heq. apply app_inv_head in Heq. inversion Heq as [Heq']. apply app_inv_head in Heq'. inversion Heq'.
+      apply Hn1. apply in_map_iff. exists rc2. split; [first [assumption | symmetry; assumption] | exact Hin].
+Qed.
+
+(* exporting the snapshot files <ida>_<rest> of one set and importing the stream under another id writes exactly the files
+   <idb>_<rest>, with exactly the exported contents, and succeeds -- for every list of files whose names have no slash,
+   are pairwise distinct, and whose targets are free *)
+Theorem export_import_roundtrip : forall sdir ida idb dirs fs files,
+  forallb (fun b => negb (b =? c_under)) ida = true -> noslash ida = true -> noslash idb = true ->
+  Forall (fun rc => noslash (fst rc) = true) files ->
+  NoDup (map fst files) ->
+  Forall (fun rc => path_lookup (fst (rt_target sdir idb rc)) fs = None /\
+                    existsb (list_beq (fst (rt_target sdir idb rc))) dirs = false) files ->
+  import_writes sdir idb dirs fs
+    (export_members (map (fun rc => (ida ++ c_under :: fst rc, snd rc)) files)) false
+  = (map (rt_target sdir idb) files, true).
+Proof.
+  intros sdir ida idb dirs fs files Hu Ha Hb Hs Hnd Hfree.
+  unfold export_members. rewrite map_map.
+  change (map (fun x : bytes * bytes => {| m_name := fst (ida ++ c_under :: fst x, snd x); m_kind := MFile;
+                                          m_body := snd (ida ++ c_under :: fst x, snd x); m_valid := true |}) files)
+    with (map (rt_member ida) files).
+  cbn [import_writes m_kind m_name]. cbn [contains has_prefix s_content_json s_dotdotslash N.eqb Pos.eqb andb orb].
+  rewrite beq_refl32.
+  rewrite (roundtrip_files sdir ida idb dirs files fs _ false Hu Ha Hb Hs Hnd Hfree).
+  cbn [import_writes m_kind m_name]. 
+  replace (contains s_dotdotslash s_export_json) with false by (vm_compute; reflexivity).
+  replace (beq s_export_json s_content_json) with false by (vm_compute; reflexivity).
+  rewrite beq_refl32. cbn [import_writes fst snd]. now rewrite app_nil_r.
 Qed.
